@@ -17,7 +17,7 @@ OPTS = {'quick': {'selfcheck_mod': 20, 'budget_s': 280}, 'thorough': {'selfcheck
 STEP_LIMIT = 150_000
 NATIVE_TIMEOUT = 5.0
 BOUNDS = {
-    'quick': 'count over lists of 0-3 elements (nested, empty-list elements, tails bound to lists of 0-2 elements, through variables); include/exclude with filters '
+    'quick': 'count over lists of 0-3 elements (nested, empty-list elements, tails bound to lists of 0-2 elements directly, through a second variable, and to lists that again end in a bound tail; through variables); include/exclude with filters '
              '{a, $_, $F unbound, $F bound, f($_), f($F), symbolic i64} over lists of 0-3 elements drawn from {a, b, symbolic i64, f(a), f(b), [b], $E bound to a} incl. bound tails; '
              'functor on complex terms of arity 0-4 with exact / `prefix*` patterns whose characters are symbolic, variable functor position, 2- and 3-argument forms; '
              'join over 1-4 words/punctuation marks chosen from {w, x, ",", ".", "?", "!"} given directly, in lists and through bound variables',
@@ -27,10 +27,12 @@ OUTSIDE = 'count on lists with an unbound tail or on non-lists; join on non-atom
 ASSUMPTIONS = ['filter matching is judged by the reference unifier under the current substitution']
 
 LISTS = [['e'], ['l', 'p', [['a']], None], ['l', 'p', [['a'], ['b']], None], ['l', 'p', [['a'], ['e'], ['l', 'p', [['b']], None]], None],
-         ['bt', [['a']], [['b']]], ['bt', [['a'], ['b']], []], ['bt', [['a']], [['b'], ['q', 'c']]], ['l', 'p', [['i'], ['f', ['a']], ['a']], None]]
+         ['bt', [['a']], [['b']]], ['bt', [['a'], ['b']], []], ['bt', [['a']], [['b'], ['q', 'c']]], ['l', 'p', [['i'], ['f', ['a']], ['a']], None],
+         ['btc', [['a']], [['b'], ['q', 'c']]], ['btn', [['a'], ['b']], [['q', 'c']], [['q', 'd'], ['q', 'e'], ['q', 'f']]], ['btn', [['a']], [], [['b']]]]
 FILTERS = [['a'], ['_'], ['v', 1], ['vb', 1, ['a']], ['f', ['_']], ['f', ['v', 1]], ['i']]
 FLISTS = [['e'], ['l', 'p', [['a'], ['b'], ['a']], None], ['l', 'p', [['f', ['a']], ['a'], ['f', ['b']]], None], ['l', 'p', [['i'], ['k', 5], ['a']], None],
-          ['l', 'p', [['l', 'p', [['b']], None], ['a']], None], ['bt', [['a']], [['b'], ['a']]], ['l', 'p', [['vb', 2, ['a']], ['b']], None], ['l', 'p', [['a'], ['l', 'p', [['b']], None]], None]]
+          ['l', 'p', [['l', 'p', [['b']], None], ['a']], None], ['bt', [['a']], [['b'], ['a']]], ['l', 'p', [['vb', 2, ['a']], ['b']], None], ['l', 'p', [['a'], ['l', 'p', [['b']], None]], None],
+          ['btc', [['a']], [['b'], ['a']]], ['btn', [['a']], [['b']], [['a'], ['f', ['a']]]]]
 WORDS = ['w', 'x', ',', '.', '?', '!']
 
 
@@ -58,7 +60,7 @@ def cases(tier, seed):
 
 def ftxt(a):
     if a[0] == 'vb': return '$V%d=%s' % (a[1], ftxt(a[2]))
-    if a[0] == 'bt': return txt(a)
+    if a[0] in ('bt', 'btc', 'btn'): return txt(a)
     if a[0] == 'l': return '[' + ', '.join(ftxt(x) for x in a[2]) + ']'
     if a[0] in ('f', 'g'): return a[0] + '(' + ', '.join(ftxt(x) for x in a[1:]) + ')'
     return U.text(a)
@@ -74,6 +76,16 @@ def inst(m, env, sh, path):
     if k == 'bt':
         tv = env.var('$T')
         env.bind(tv, ('plist', tuple(inst(m, env, x, '%s.t%d' % (path, i)) for i, x in enumerate(sh[2])), None))
+        return ('plist', tuple(inst(m, env, x, '%s.h%d' % (path, i)) for i, x in enumerate(sh[1])), tv)
+    if k == 'btc':       # tail variable -> second variable -> list
+        tv, uv = env.var('$T'), env.var('$U')
+        env.bind(uv, ('plist', tuple(inst(m, env, x, '%s.t%d' % (path, i)) for i, x in enumerate(sh[2])), None))
+        env.bind(tv, uv)
+        return ('plist', tuple(inst(m, env, x, '%s.h%d' % (path, i)) for i, x in enumerate(sh[1])), tv)
+    if k == 'btn':       # tail bound to a list that ends in another bound tail variable
+        tv, uv = env.var('$T'), env.var('$U')
+        env.bind(uv, ('plist', tuple(inst(m, env, x, '%s.u%d' % (path, i)) for i, x in enumerate(sh[3])), None))
+        env.bind(tv, ('plist', tuple(inst(m, env, x, '%s.t%d' % (path, i)) for i, x in enumerate(sh[2])), uv))
         return ('plist', tuple(inst(m, env, x, '%s.h%d' % (path, i)) for i, x in enumerate(sh[1])), tv)
     if k == 'l':
         return ('plist', tuple(inst(m, env, x, '%s.%d' % (path, i)) for i, x in enumerate(sh[2])), None if sh[3] is None else inst(m, env, sh[3], path + '.t'))
@@ -132,7 +144,7 @@ def run_count(drv, case):
         ra, _ = B.run_goal(drv, kb, ('gb', 'count', (t, ('int', n))), env.ss, times=2)
         if (ra.h is not None) != ok:
             raise Violation('count-check', '%s: count(L, %d) %s' % (desc, n, 'succeeds' if ra.h is not None else 'fails'))
-    return {'tags': ['count'] + (['bound-tail'] if case['L'][0] == 'bt' else []), 'note': desc}
+    return {'tags': ['count'] + (['bound-tail'] if case['L'][0] in ('bt', 'btc', 'btn') else []), 'note': desc}
 
 
 def run_filter(drv, case):
@@ -171,7 +183,7 @@ def run_filter(drv, case):
         raise Violation(pred + '-wrong', '%s: Out = %s, expected %s' % (desc, R.show(got), R.show(want)))
     only_out_bound(m, before, after, out, desc, pred)
     tags = [pred]
-    if case['L'][0] == 'bt': tags.append('bound-tail')
+    if case['L'][0] in ('bt', 'btc', 'btn'): tags.append('bound-tail')
     if U.has(case['F'], 'v') or case['F'][0] == 'vb': tags.append('filter-with-variable')
     return {'tags': tags, 'note': desc}
 
